@@ -205,6 +205,9 @@ func (e *Enc) bindCallee(ci *calleeInfo, ctx *evalCtx) {
 			if _, isS := l.root.Underlying().(*types.Struct); isS {
 				ctx.bind["owner"] = TV{T: l.base, Typ: types.NewPointer(l.root), Sort: "Ref"}
 				ctx.bind["self"] = TV{T: l.base, Typ: types.NewPointer(l.root), Sort: "Ref"}
+				if stt, ok := l.root.Underlying().(*types.Struct); ok && l.path[0].field < stt.NumFields() {
+					ctx.bind["slot"] = TV{T: fmt.Sprintf("(fslot %s %d)", l.base, fieldSlotID(l.root, stt.Field(l.path[0].field).Name())), Sort: "Ref"}
+				}
 			}
 		} else if e.st.sortOf(ci.args[0].Type()) == "Ref" {
 			ctx.bind["self"] = TV{T: e.term(ci.args[0]), Typ: ci.args[0].Type(), Sort: "Ref"}
